@@ -21,7 +21,8 @@ open Drv_tmpl
      D42  finding_D42 text (static text has a DOCTYPE declaration) AND the tokenizer is inside a DOCTYPE at the
           failing place, or the two skeletons differ only in the name of DOCTYPE tokens;
      D43  finding_D43 trees (a text node of the template ends inside a tag name) AND, in the placement stream,
-          the offending bytes were consumed as part of a tag name;
+          the offending bytes were consumed as part of a tag name - or the name that ends with the text node is the
+          name of a special element (special_name_then_action) and the failing clause is a comment / structure clause;
      D1   finding_D1 trees (a template called from >= 2 sites whose body changes the context);
      D48  Drv_tmpl.split_name_finding text (an attribute name split over several text nodes; an OCaml predicate on
           the template text, shared with C02);
@@ -68,6 +69,21 @@ let where_of_states (l : V.hstate list) =
   { script = List.exists is_script_state l; raw = List.exists is_raw_state l; doctype = List.exists is_doctype_state l;
     tagname = true; special = List.exists is_special_state l }
 
+(* D43 on the name of a special element: <STYLE{{with .A}}x{{end}}> - the engine takes the element for style (the name
+   ends with the text node), the tokenizer reads <STYLEx>, an unknown element whose content is markup: what the
+   engine keeps as style sheet / script / RCDATA text (a comment opener, say) is tokenized *)
+let special_name_then_action (text : string) : bool =
+  let n = String.length text in
+  let lower = String.lowercase_ascii text in
+  let rec at i =
+    if i >= n then false
+    else if lower.[i] = '<' && List.exists (fun nm ->
+        let l = String.length nm in
+        i + 1 + l + 2 <= n && String.sub lower (i + 1) l = nm && String.sub lower (i + 1 + l) 2 = "{{")
+        ["script"; "style"; "title"; "textarea"] then true
+    else at (i + 1) in
+  at 0
+
 let finding_tag ?(clause = "") ~(text : V.n list) ~(parsed : string) (w : where) : string =
   if (has_prefix "comment_token_in_output" clause || has_prefix "structure_differs_from_the_authors_markup" clause
       || has_prefix "untrusted_data_consumed_as_comment" clause) && V.finding_D45 text then "\tfinding=D45"
@@ -76,6 +92,9 @@ let finding_tag ?(clause = "") ~(text : V.n list) ~(parsed : string) (w : where)
   else begin
     let trees = try trees_of_wire parsed with _ -> [] in
     if w.tagname && V.finding_D43 trees then "\tfinding=D43"
+    else if (has_prefix "comment_token_in_output" clause || has_prefix "structure_differs_from_the_authors_markup" clause
+             || has_prefix "untrusted_data_consumed_as_comment" clause || has_prefix "structure_changed_by_data" clause)
+         && V.finding_D43 trees && special_name_then_action (string_of_bytes text) then "\tfinding=D43"
     else if Drv_tmpl.split_name_finding (string_of_bytes text) then "\tfinding=D48"
     else if Drv_tmpl.branch_at_value_finding (string_of_bytes text) then "\tfinding=D50"
     else if V.finding_D1 trees then "\tfinding=D1"
